@@ -38,7 +38,7 @@ Definition atom (v : value) : bool :=
   match v with VNum _ | VBool _ | VStr _ _ | VNone => true | _ => false end.
 
 Lemma is_leaf_opts t : is_leaf_ty t = true -> opts_on_leaves t = true.
-Proof. destruct t as [dt| |sz [b|] t|t|ks ts|ts]; cbn; auto. Qed.
+Proof. destruct t as [dt| |sz [b|] t|t|ks ts|ts]; cbn; intros H; try discriminate H; auto. Qed.
 
 (* ---------------------------------------------------------------- what sort_leaves accepts and returns *)
 Lemma key_of_value_inv v k : key_of_value v = Ok k -> value_of_key k = v.
@@ -113,12 +113,12 @@ Proof.
   - unfold shp. cbn [snd shape]. f_equal. apply get_ext; [rewrite !zlen_map; exact Hz|].
     intros i Hi. rewrite zlen_map in Hi. rewrite !get_map.
     destruct (get_ok l' i Hi) as [y Hy]. destruct (get_ok l i) as [x Hx]; [lia|].
-    specialize (Hp i). rewrite Hx, Hy in Hp. cbn [app] in Hp. inversion Hp as [[Hxy _]].
+    specialize (Hp i). rewrite Hx, Hy in Hp. cbn [app] in Hp. injection Hp as Hxy _.
     rewrite Hx, Hy. cbn [rmap]. f_equal. exact Hxy.
   - apply IH. intros p. specialize (Hp p).
     destruct (get l p) as [x|e] eqn:Ex.
     + destruct (get_ok l' p) as [y Hy]; [apply get_range in Ex; lia|]. rewrite Hy in Hp. cbn [app] in Hp.
-      inversion Hp. assumption.
+      injection Hp as _ Hp. exact Hp.
     + apply get_err in Ex as [_ Ex]. rewrite get_oob in Hp by lia. exact Hp.
 Qed.
 
